@@ -14,11 +14,14 @@
         history (last accepted Set-Cookie per key and name wins; expired = gone) and only that is ever attached
   * `attached_only_if_spec_match_raw`, `max_age_nonpositive_is_expired`, `no_expiry_attribute_not_expired`,
         `valueless_domain_path_ignored` : the same with the clock, `cookies.is_expired` and the attribute lookup inside the model
+  * `attached_only_if_spec_match_hdr`, `jar_is_last_write_hdr` : the same for histories given by the TEXT of the Set-Cookie
+        headers (tokenizer = C34's transcription of `_read_set_cookie_pairs`); only email.utils' date verdict stays a parameter
   * `expired_removed` : after an accepted expired Set-Cookie there is no cookie of that name under its key, and no
         empty dict is left behind; `expired_removed_history`: the same at the end of any history;
         `jar_no_empty_dicts`: the jar never holds an empty dict
 -/
 import MitmVerif.Lemmas.C54
+import MitmVerif.Model.C54_Header
 namespace MitmVerif.Props.C54
 open MitmVerif MitmVerif.C54
 
@@ -222,6 +225,38 @@ theorem attached_only_if_spec_match_raw (ip : IPNotion) (evs : List RawEvent) (f
     subst hrce
     exact ⟨now, rh, rp, rcs, rc, hrev, hrc, h1, h2, h3, h4, h5, h6, h7⟩
 
+/-- **From the header text.** `attached_only_if_spec_match` for histories whose responses are given by the TEXT of
+    their Set-Cookie headers: the tokenizer (`cookies._read_set_cookie_pairs`, transcription shared with C34), the
+    attribute lookup, `is_expired` and the clock are all inside the model; only email.utils' verdict on an Expires
+    value (`dateOf`) is a parameter, and the theorem holds for every such function. -/
+theorem attached_only_if_spec_match_hdr (ip : IPNotion) (dateOf : Bytes → Option Int) (evs : List HdrEvent)
+    (flt : Bool) (host : Bytes) (port : Nat) (path n v : Bytes)
+    (h : (n, v) ∈ attached (runHdr dateOf [] evs) flt host port path) :
+    flt = true ∧
+    ∃ now rhost rport hs hd c, HdrEvent.resp now rhost rport hs ∈ evs ∧ hd ∈ hs ∧ c ∈ cookiesOfHeader dateOf hd ∧
+      c.name = n ∧ c.value = v ∧ isExpired now c.attrs c.dateTs = false ∧ rport = port ∧
+      domainMatch6265 ip.isIP host (ckey (c.toCookie now) rhost rport).domain = true ∧
+      domainMatch6265 ip.isIP rhost (ckey (c.toCookie now) rhost rport).domain = true ∧
+      pathMatch6265 (uriPath path) (ckey (c.toCookie now) rhost rport).path = true := by
+  obtain ⟨hf, now, rhost, rport, cs, c, hev, hc, h1, h2, h3, h4, h5, h6, h7⟩ :=
+    attached_only_if_spec_match_raw ip (evs.map (HdrEvent.toRaw dateOf)) flt host port path n v h
+  refine ⟨hf, ?_⟩
+  obtain ⟨hev', hmem, heq⟩ := List.mem_map.mp hev
+  cases hev' with
+  | req f h' p' pa => simp [HdrEvent.toRaw] at heq
+  | resp now' rh rp hs =>
+    simp only [HdrEvent.toRaw, RawEvent.resp.injEq] at heq
+    obtain ⟨e1, e2, e3, e4⟩ := heq
+    subst e1; subst e2; subst e3; subst e4
+    obtain ⟨hd, hhd, hcd⟩ := List.mem_flatMap.mp hc
+    exact ⟨now', rh, rp, hs, hd, c, hmem, hhd, hcd, h1, h2, h3, h4, h5, h6, h7⟩
+
+/-- the jar after a header-text history is the last-write function of the parsed history -/
+theorem jar_is_last_write_hdr (dateOf : Bytes → Option Int) (evs : List HdrEvent) (k : JKey) (n : Bytes) :
+    jarGet (runHdr dateOf [] evs) k n =
+      lastWrite ((evs.map (HdrEvent.toRaw dateOf)).map RawEvent.toEvent) k n :=
+  jar_is_last_write _ k n
+
 /-- A Max-Age that `int()` accepts and that is ≤ 0 makes the cookie expired at every clock reading, whatever the
     Expires attribute says (RFC 6265 §4.1.2.2: Max-Age has precedence). -/
 theorem max_age_nonpositive_is_expired (now : Int) (attrs : List (Bytes × Option Bytes)) (dateTs : Option Int)
@@ -290,6 +325,18 @@ example : isExpired 1000 (at' [("Max-Age", some "abc")]) none = false ∧ pyInt 
     pyInt (s "-5") = some (-5) ∧ pyInt (s " +7 ") = some 7 := by decide +kernel
 example : (ckey { name := s "a", value := s "b", attrs := at' [("Domain", none)], expired := false } (s "h.example") 80).domain
     = s "h.example" := by decide +kernel
+-- the tokenizer inside the model (after e0e81be4a / 8cc872297): a short Expires value no longer swallows the Path …
+example : ((cookiesOfHeader (fun _ => none) (C34.S "a=b; Expires=0; Path=/admin")).map
+    (fun c => (ckey (c.toCookie 0) (s "example.com") 80).path)) = [s "/admin"] := by decide +kernel
+-- … and an RFC 850 date with a long weekday name is ONE cookie whose Expires value is the whole date
+example : (cookiesOfHeader (fun _ => some 0) (C34.S "sid=; Expires=Thursday, 01-Jan-70 00:00:00 GMT; Path=/")).map
+    (fun c => (c.name, attrGet kExpires c.attrs, isExpired 1000 c.attrs c.dateTs))
+    = [(s "sid", some (some (s "Thursday, 01-Jan-70 00:00:00 GMT")), true)] := by decide +kernel
+-- a header-text history: learn from the text, attach, expire by text
+example : attached (runHdr (fun _ => none) [] [.resp 1000 (s "a.example.com") 80 [C34.S "sid=1; Domain=.example.com; Path=/foo"]])
+    true (s "b.example.com") 80 (s "/foo/bar") = [(s "sid", s "1")] := by decide +kernel
+example : runHdr (fun _ => none) [] [.resp 1000 (s "a.example.com") 80 [C34.S "sid=1; Domain=.example.com; Path=/foo"],
+    .resp 1001 (s "a.example.com") 80 [C34.S "sid=; Max-Age=0; Domain=.example.com; Path=/foo"]] = [] := by decide +kernel
 -- the laws of `IPNotion` are satisfiable
 example : IPNotion := stdIPNotion
 
